@@ -1,14 +1,16 @@
-(* C45, array variables, generator as found: bounds symbols are written under a name the reader never looks up *)
-From Coq Require Import String List.
+(* C45, array variables, front-end / generator as found: bounds symbols are written under a name the reader never looks up *)
+From Coq Require Import String List ZArith Bool Arith Sorted.
 From C45 Require Import C45Model C45Spec C45Proofs.
+Import ListNotations.
+Local Open Scope string_scope.
 Local Open Scope list_scope.
 Theorem C45_array_variables_bounds_faithful_refuted : forall vr, array_bounds_unreadable vr = true ->
-  exists g d, dkind d = Behaviour /\ ~ Forall2 (faithful_var g (dunit d)) (dmps d) (t_mps (symbols vr g d)).
-Proof. intros vr F. exists nil, w2. split; [reflexivity | exact (d2_refuted vr F)]. Qed.
+  exists g d, dkind d = Behaviour /\ ~ Forall2 (wf_faithful g (dunit d)) (dsl_mps (ddsl d) (dmps d)) (t_mps (symbols vr g d)).
+Proof. exact d2_refuted_ex. Qed.
 Print Assumptions C45_array_variables_bounds_faithful_refuted.
 Theorem C45_array_variables_bounds_faithful_once_repaired : forall vr g d,
   array_bounds_unreadable vr = false -> dkind d = Behaviour -> let T := symbols vr g d in
-  Forall2 (faithful_var g (dunit d)) (dmps d) (t_mps T) /\ Forall2 (faithful_var g (dunit d)) (desvs d) (t_esvs T) /\
-  Forall2 (faithful_var g (dunit d)) (dparams d ++ builtin_parameters) (t_params T).
+  Forall2 (wf_faithful g (dunit d)) (dsl_mps (ddsl d) (dmps d)) (t_mps T) /\ Forall2 (wf_faithful g (dunit d)) (desvs d) (t_esvs T) /\
+  Forall2 (wf_faithful g (dunit d)) (dsl_params (ddsl d) (dparams d)) (t_params T).
 Proof. exact d2_holds. Qed.
 Print Assumptions C45_array_variables_bounds_faithful_once_repaired.
